@@ -7,7 +7,8 @@ for p in sorted(glob.glob(os.path.join(VERIF, "seeded", "*", "meta.json"))):
     m = json.load(open(p))
     c = m.get("confirmed", {})
     needs = m.get("needs", "")
-    rows.append((m["id"], m["breaks_property"], "yes" if m.get("kept") else "NO", ", ".join(m.get("caught_by", [])) or "— (missed)",
+    rows.append((m["id"], m["breaks_property"], "yes" if m.get("kept") else "NO",
+                 (", ".join(m.get("caught_by", [])) or "— (missed)") + (" (missed at first intake)" if m.get("first_intake") else ""),
                  "; ".join(sorted({k for r in m.get("checks_run", []) if r["exit"] == 1 for k in r["violation_classes"][:2]}))[:110], needs))
 print("| seeded change | breaks | confirmed (demo fails with / passes without, baseline passes) | caught by | violation classes reported (first few) |")
 print("|---|---|---|---|---|")
